@@ -83,6 +83,13 @@ partial def showTy : HType → List String
   | .struct fs => "struct" :: toString fs.length :: (fs.map fun (n, t) => showStr n :: showTy t).flatten
   | .tuple ts => "tuple" :: toString ts.length :: (ts.map showTy).flatten
 
+/-- canonical form of a printed type: white space outside backticked identifiers removed (layout is not an observable) -/
+def stripWs : Bool → Str → Str
+  | _, [] => []
+  | true, 92 :: d :: r => 92 :: d :: stripWs true r
+  | true, c :: r => c :: stripWs (c != 96) r
+  | false, c :: r => if c == 96 then c :: stripWs true r else if cc.isSpace c then stripWs false r else c :: stripWs false r
+
 def bit (b : Bool) : String := if b then "1" else "0"
 
 def handle (line : String) : String :=
@@ -99,10 +106,10 @@ def handle (line : String) : String :=
     | some s => showStr (escapeId cc s)
     | none => "bad-op"
   | "str" :: ty => match parseTy ty with
-    | some (t, []) => showStr (str cc t)
+    | some (t, []) => showStr (stripWs false (str cc t))
     | _ => "bad-op"
   | "par" :: ty => match parseTy ty with
-    | some (t, []) => showStr (parsable cc t)
+    | some (t, []) => showStr (stripWs false (parsable cc t))
     | _ => "bad-op"
   | ["dtype", s] => match parseStr s with
     | some s => match dtype cc s with
